@@ -564,6 +564,11 @@ class Gen:
             inner = {"k": ("add_to_listing" if kind == "listing" else "add_to_bucket") + suffix, "id": rid}
             if r.random() < 0.15:
                 inner = {"k": ("add_to_bucket" if kind == "listing" else "add_to_listing") + suffix, "id": rid}
+            elif r.random() < 0.15:
+                # a forged *create* naming an id the forged sender already holds
+                inner = {"k": "create_%s%s" % (kind, suffix), "id": rid}
+                if kind == "listing":
+                    inner.update({"ask": self.random_ask(v, victim), "wl": None})
         else:
             victim = self.trader()
             if r.random() < 0.5:
